@@ -51,11 +51,19 @@ func c12Run(c *h.Ctx) {
 	r := c.R
 	var cur blindLvl
 	var atSignal blindLvl
+	sameNumber := 0
 	nextLevel := func() blindLvl {
 		bb := int64(2 + r.Intn(60))
 		l := blindLvl{Level: cur.Level + 1, SB: bb / 2, BB: bb}
 		if l.Level <= 0 {
 			l.Level = 1
+		}
+		if cur.Level > 0 && r.Intn(4) == 0 {
+			// a corrected level: same number, other amounts (round 7)
+			l.Level = cur.Level
+			l.BB = cur.BB + int64(1+r.Intn(20))
+			l.SB = l.BB / 2
+			sameNumber++
 		}
 		if r.Intn(3) == 0 {
 			l.Ante = 1 + bb/8
@@ -66,6 +74,7 @@ func c12Run(c *h.Ctx) {
 		return l
 	}
 	updates, midUpdates := 0, 0
+	_ = sameNumber
 	breakPending := false
 	setLevel := func(p *Play, l blindLvl, where string) {
 		p.SS.S.TE.UpdateBlind(l.Level, l.Ante, l.Dealer, l.SB, l.BB)
@@ -266,6 +275,9 @@ func c12Run(c *h.Ctx) {
 		return
 	}
 	c.Count("blind_updates", int64(updates))
+	if sameNumber > 0 {
+		c.Feature("update:same-level-number-other-amounts")
+	}
 	c.Sample(map[string]interface{}{"cfg": p.Cfg, "hands": len(p.SS.Hands), "blind_updates": updates, "last_level": cur.String()})
 }
 
@@ -471,7 +483,7 @@ func init() {
 		},
 		Cases:            func(tier string) int { return map[string]int{"quick": 1200, "thorough": 20000}[tier] },
 		MinNontrivial:    func(tier string) int { return map[string]int{"quick": 600, "thorough": 10000}[tier] },
-		RequiredFeatures: func(string) []string { return []string{"update:between-hands", "update:mid-hand", "update:break-mid-hand", "paused-after-break-mid-hand", "update:break-ends", "created-on-break", "level-changed-while-hand-ran", "break-set-in-continue-interval", "break-ends-in-continue-interval", "break-during-open-retry", "update:through-the-manager", "update:overlapping-the-open", "update:level-clock-fires-several-times-across-the-open"} },
+		RequiredFeatures: func(string) []string { return []string{"update:between-hands", "update:mid-hand", "update:break-mid-hand", "paused-after-break-mid-hand", "update:break-ends", "created-on-break", "level-changed-while-hand-ran", "break-set-in-continue-interval", "break-ends-in-continue-interval", "break-during-open-retry", "update:through-the-manager", "update:overlapping-the-open", "update:level-clock-fires-several-times-across-the-open", "update:same-level-number-other-amounts"} },
 		CaseTimeout:      200e9,
 		InProc:           4,
 		Run:              c12Run,
